@@ -1,4 +1,5 @@
 import AsyncVerif.Std.Aggregations
+import AsyncVerif.Std.Select
 /-!
 # Models of asyncstdlib's aggregations (builtins.py, functools.py, heapq.py) and `heapq.merge`
 -/
@@ -32,9 +33,10 @@ def sorted (fn : Option Nat) (reverse : Bool) (s : Nat) (fuel : Nat) : M Val := 
   let r ← liftExc (Std.sortKeyed reverse keyed)
   pure (.lst r)
 
-/-- `heapq.nlargest` / `heapq.nsmallest` (`_largest`): the bounded heap is abstracted to its meaning -/
+/-- `heapq.nlargest` / `heapq.nsmallest` (`_largest`): the bounded heap inside the scope; keys of `nsmallest` are
+    wrapped in `ReverseLT`, stamps count downwards in both directions (`order_sign = -1`) -/
 def nBest (largest : Bool) (n : Nat) (fn : Option Nat) (s : Nat) (fuel : Nat) : M Val :=
-  scopedIter s (Std.nBest largest n fn s fuel)
+  scopedIter s (Std.nBestAlgo ⟨largest, false⟩ n fn s fuel)
 
 /-- `heapq.merge`: every iterator is owned from the start and closed in `finally` -/
 def merge (fn : Option Nat) (reverse : Bool) (srcs : List Nat) (fuel : Nat) : M Unit :=
